@@ -32,6 +32,7 @@ fn main() {
         "C13" => engines::c13::main(&args),
         "C15" => engines::c15::main(&args),
         "C15child" => engines::c15::child_main(),
+        "C15burstchild" => engines::c15burst::child_main(),
         "C22" => engines::c22::main(&args),
         "C22child" => engines::c22::child_main(),
         "C27" => engines::c27::main(&args),
